@@ -12,8 +12,10 @@ pub fn instances(tier: &str) -> Vec<String> {
     v.push("deg3_cmplx_pure".into()); // a x^3 + d with complex a, d: the Cardano sign choice at d0 = 0, where base = d1 +- sqrt(d1^2) must not cancel
     if tier == "thorough" { v.push("deg2_real_refine".into()); }
     // the real Laguerre iteration, ONE pass from an arbitrary iterate (inductive step of the loop; section 4 of DESIGN.md)
-    v.push("laguer_pass:m=2,co=cmplx".into());
-    if tier == "thorough" { v.push("laguer_pass:m=3,co=cmplx".into()); }
+    for side in ["p", "m", "exit"] {
+        v.push(format!("laguer_pass:m=2,co=cmplx,side={}", side));
+        if tier == "thorough" { v.push(format!("laguer_pass:m=3,co=cmplx,side={}", side)); }
+    }
     v
 }
 
@@ -21,7 +23,7 @@ pub fn configure(inst: &str, cfg: &mut Config) {
     // the square-root stub leaves the sign open on the branch cut (f64: decided by the sign of a zero)
     if inst.starts_with("deg2") || inst.starts_with("deg3") { cfg.stubs = vec!["csqrt".into(), "ccbrt".into(), "csqrt_signed_zero".into()]; }
     if inst.contains("deflation") { cfg.stubs = vec!["laguer".into()]; }
-    if inst.starts_with("laguer_pass") { cfg.stubs = vec!["csqrt".into()]; }
+    if inst.starts_with("laguer_pass") { cfg.stubs = vec!["csqrt".into()]; cfg.decide_timeout_ms = cfg.decide_timeout_ms.min(1500); }
 }
 
 fn z() -> Sym { Sym::lit(0.0) }
@@ -126,6 +128,28 @@ fn body_laguer(inst: &str) {
     let coeffs: Vec<Cmplx> = (0..=m).map(|k| Cmplx::new(cre[k], if real { z() } else { cim[k] })).collect();
     if real { assume(ne(cre[m], z())); } else { assume(B::or(vec![ne(cre[m], z()), ne(cim[m], z())])); }
     let x0 = Cmplx::new(Sym::var("x.re"), Sym::var("x.im"));
+    // optional case split (one instance per side, run in parallel): which of G + sq, G - sq has the larger modulus
+    if let Some(side) = pm.get("side") {
+        let (mut b, mut d, mut f) = (coeffs[m], cz(), cz());
+        for j in (0..m).rev() { f = x0 * f + d; d = x0 * d + b; b = x0 * b + coeffs[j]; }
+        if side == "exit" {
+            // only the paths that return during the first pass (|p(x0)| <= EPS * bound, p(x0) = 0 included)
+            let mut err = coeffs[m].abs();
+            let abx = x0.abs();
+            let mut bb = coeffs[m];
+            for j in (0..m).rev() { bb = x0 * bb + coeffs[j]; err = bb.abs() + abx * err; }
+            assume(le(bb.abs(), err * Sym::lit(f64::EPSILON)));
+        } else {
+            // the paths that take a step: p(x0) != 0 there (|p(x0)| > EPS * bound >= 0)
+            assume(B::or(vec![ne(b.real, z()), ne(b.imag, z())]));
+            let g = d / b;
+            let g2 = g * g;
+            let h = g2 - (f / b) * Sym::lit(2.0);
+            let sq = ((h * Sym::lit(m as f64) - g2) * Sym::lit((m - 1) as f64)).sqrt();
+            let (abp, abm) = ((g + sq).abs(), (g - sq).abs());
+            assume(if side == "m" { lt(abp, abm) } else { le(abm, abp) });
+        }
+    }
     let mut a = Vector::<Cmplx>::create(coeffs.clone());
     let mut x = x0;
     let mut its_cell: usize = 0;
